@@ -68,7 +68,33 @@ def data_scenario(pid, i, rng, tier, route=None, window=False, fail=False):
 def gen_C03(tier, seed):
     rng = rng_for('C03', tier, seed)
     n = 120 if tier == 'quick' else 2500
-    return [data_scenario('C03', i, rng, tier).build() for i in range(n)]
+    progs = [data_scenario('C03', i, rng, tier).build() for i in range(n)]
+    # the same arrays serialised more than once: written twice, or feeding two logical files
+    for i in range(16 if tier == 'quick' else 120):
+        route = ['struct', 'dict', 'inline', 'struct'][i % 4]
+        p = Prog(f'C03-twice-{i}', {'kind': 'twice', 'route': route})
+        p.file(1, vrl=rng.choice([64, 8192]))
+        nlf = 2 if i % 2 else 1
+        arrays = [rand_array(rng, rng.choice(['float64', 'int32', 'uint16', 'float32']), 4, rng.choice([None, 3, 3])) for _ in range(2)]
+        aids = [p.array(a) for a in arrays]
+        arrs = {}
+        for k in range(nlf):
+            lf = p.lf(1, fh_id=f'LF{k}')
+            sn = f'S{k}'
+            p.origin(lf, name='O', fsn=k + 1, set_name=sn)
+            chans = []
+            for c, aid in enumerate(aids):
+                if route == 'inline':
+                    ch = p.channel(lf, f'CH{c}', data=aid, set_name=sn)
+                else:
+                    ch = p.channel(lf, f'CH{c}', set_name=sn, dataset_name=None)
+                    arrs[ch] = aid
+                chans.append(ch)
+            p.frame(lf, 'FR', chans, set_name=sn)
+        p.write(1, route='none' if route == 'inline' else route, data_arrays=arrs, fname='first.dlis')
+        p.write(1, route='none' if route == 'inline' else route, data_arrays=arrs, fname='second.dlis', in_chunk=2)
+        progs.append(p.build())
+    return progs
 
 
 def gen_C19(tier, seed):
@@ -416,6 +442,22 @@ def gen_C09(tier, seed):
         p.origin(lf, name='O')
         c = p.channel(lf, 'CH', data=np.arange(3, dtype='float64'))
         p.frame(lf, 'FR', [c])
+        p.write(1)
+        progs.append(p.build())
+    # every class once as the very first object of a logical file, the origin later
+    for cls in [c for c in ORDER if c not in ('frame',)]:
+        p = Prog(f'C09-first-{cls}', {'kind': 'firstclass', 'cls': cls})
+        p.file(1)
+        lf = p.lf(1, fh_id='FIRST-OBJECT')
+        refs = {}
+        add_all_classes(p, lf, rng, refs=refs, classes=[cls], pattern='none')
+        rest = [c for c in rng.sample(ORDER, 5) if c != cls and c not in ('channel', 'frame')]
+        add_all_classes(p, lf, rng, refs=refs, classes=rest, pattern='random')
+        refs['ORIGIN'] = [p.origin(lf, name='LATE-ORIGIN')]
+        if cls == 'channel':
+            p.frame(lf, 'FR', refs['CHANNEL'])
+        else:
+            add_all_classes(p, lf, rng, refs=refs, classes=['channel', 'frame'], pattern='none')
         p.write(1)
         progs.append(p.build())
     n = 30 if tier == 'quick' else 300
